@@ -77,6 +77,8 @@ fn dist_strategy() -> BoxedStrategy<Vec<u64>> {
         1 => Just(0u64),
         1 => 257u64..=300,
         1 => any::<u64>(),
+        // out of range, but equal to an in-range distance in their low 8 / 16 / 32 bits
+        1 => (1u64..=256, prop_oneof![Just(8u32), Just(16u32), Just(32u32), Just(40u32)], 1u64..1000).prop_map(|(low, sh, k)| low.wrapping_add(k << sh)).prop_filter("out of range", |x| *x > 256),
     ];
     prop_oneof![
         4 => proptest::collection::vec(d, 1..8),
